@@ -108,7 +108,16 @@ def run(chk):
             chk.ob("C05.S.limit_fanin", key, prob is None, file=FILE, func="limit_fanin", line=fi.node.lineno, fact=prob or {"nodes": len(ck.nodes()), "max_fanin": worst},
                    expect="same inputs/outputs, fan-in <= k everywhere, every original node computes the same function")
     fo = repo.func(FILE, "limit_fanout")
-    for kname, c in fams:
+    # a heavily loaded driver of every kind: input, constant 0 / 1, gate, inverter, a driver that is itself an output
+    fanout_models = []
+    for dname, dspec in (("input", ("input", [])), ("const0", ("0", [])), ("const1", ("1", [])), ("gate", ("nand", ["a", "b"])), ("inverter", ("not", ["a"]))):
+        for nl, as_out in ((4, False), (5, True)):
+            spec = {"a": ("input", []), "b": ("input", []), "drv": dspec}
+            for i in range(nl):
+                spec[f"l{i}"] = (["and", "or", "xor", "nand", "nor"][i % 5], ["drv", "a" if i % 2 else "b"])
+            spec["o"] = ("xor", [f"l{i}" for i in range(nl)])
+            fanout_models.append((f"fanout::{dname}-drives-{nl}" + ("-and-is-an-output" if as_out and dname != "input" else ""), build(spec, outputs=["o"] + (["drv"] if as_out and dname != "input" else []))))
+    for kname, c in fams + fanout_models:
         if max(len(c.fanout(n)) for n in c.nodes()) < 3 and not kname.startswith(("fanout", "reconv", "wide")):
             continue
         for k in (2, 3):
